@@ -1,4 +1,7 @@
 import FcpptModel.Model.C15.Bytes
 import FcpptModel.Model.C15.Text
 import FcpptModel.Model.C15.Codecvt
+import FcpptModel.Model.C15.Stream
+import FcpptModel.Model.C15.TextExt
+import FcpptModel.Model.C15.Toy
 /-! C15 model: see the sub-modules `Model/C15/*.lean` (each lists the C++ files it mirrors). -/
